@@ -10,10 +10,11 @@ and the labels (decide / service_start / app_call) after every step; (b) an ast 
 the modelled methods; and searched by (c) the property's monitor (extracted, and in Python) on
 real traces under random, PCT and bounded-exhaustive schedules.
 
-Finding (F22): will_close := True set by _flush_exception (a send error that is not a disconnect)
-is neither taken under requests_lock nor consulted by service() before it chains the next
-buffered request: that request is executed.  Proved refuted in the model (C11_refuted), reproduced
-on the real code here; C11_partial covers every other close decision."""
+History (F22, fixed by /repo 64d926d): will_close := True set by _flush_exception (a send error that
+is not a disconnect) was neither taken under requests_lock nor consulted by service(): the next
+buffered request was executed.  service() now reads will_close next to connected; the theorem
+(Props/C11.v, C11) covers every kind of close decision.  The two scenarios that exhibited the
+finding are kept as directed cases: reverting the fix is reported with scenario + schedule."""
 import errno
 import hashlib
 import json
@@ -64,19 +65,6 @@ def _H():
     return chanclose
 
 
-def classify(info):
-    """info from py_monitor(full): which known-finding class, or None for a real violation."""
-    ds = set(info["decisions_before_start"])
-    H = _H()
-    if ds & H.COVERED:
-        return None
-    if "flush_err_w" in ds:
-        return "kf_c11_worker_flush_error"
-    if "flush_err_io" in ds:
-        return "kf_c11_io_flush_error"
-    return None
-
-
 def run_one(sc, schedule=(), policy=None, granularity="locks"):
     H = _H()
     w = H.build_world(sc, schedule=schedule, policy=policy, granularity=granularity)
@@ -106,8 +94,8 @@ def run(ctx):
     # ---- the model's own explorer: candidate invariants + both monitors, small instance ----
     ex = runner.query(["explore 0 2 2 %d" % (3000000 if thorough else 400000),
                        "explore 1 2 %d %d" % ((3, 3000000) if thorough else (2, 400000))])
-    ex_ok = all((" inv=ok " in e and e.endswith("partial=ok") and " full=io" in e) for e in ex)
-    ctx.oblige("model explorer (extracted): invariants hold, partial monitor never fails, full monitor fails (F22) "
+    ex_ok = all((" inv=ok " in e and e.endswith("partial=ok") and " full=ok" in e) for e in ex)
+    ctx.oblige("model explorer (extracted): invariants hold and the monitor (all decision kinds) never fails "
                "on the bounded instances", ex_ok, " | ".join(x[:300] for x in ex))
 
     # ---- (a)+(c) real traces -----------------------------------------------------------
@@ -117,7 +105,6 @@ def run(ctx):
     policies = {}
     nontrivial = set()
     samples = []
-    kf_seen = {}
     conf_ok = [True]
     mon_ok = [True]
     msg_kinds = {}
@@ -146,15 +133,6 @@ def run(ctx):
             ctx.report("monitor:" + ",".join(sorted(set(infop["decisions_before_start"]))),
                        "application called by a service() entered after close decision(s) %s" % infop["decisions_before_start"],
                        rep)
-        elif not okf:
-            kf = classify(inff)
-            rep["observed"] = inff
-            if kf is None:
-                mon_ok[0] = False
-            kf_seen[kf] = kf_seen.get(kf, 0) + 1
-            if kf_seen[kf] <= 1 or kf is None:
-                ctx.report("monitor-kf:%s" % kf, "application called by a service() entered after will_close was set by "
-                           "_flush_exception (%s)" % inff["decisions_before_start"], rep, kf_class=kf)
         return okp, okf
 
     def check_extracted_monitor(all_labs):
@@ -206,7 +184,7 @@ def run(ctx):
     labs = account(F22_SCENARIO, w, v, "default", "attrs")
     okp, okf = check_monitor(F22_SCENARIO, w, labs, "default", "attrs")
     validate(F22_SCENARIO, w, "default")
-    f22 = okp and not okf
+    f22 = not okp
     collected_labels.append(labs)
     samples.append({"scenario": F22_SCENARIO, "policy": "default", "labels": labs[:14], "f22_reproduced": f22})
 
@@ -220,14 +198,14 @@ def run(ctx):
             w, v = run_one(sc, schedule=prefix, granularity=gran)
             labs = account(sc, w, v, "explore", gran)
             okp, okf = check_monitor(sc, w, labs, "explore", gran)
-            if okp and not okf:
-                _, inf = H.py_monitor(labs, H.COVERED | H.UNCOVERED)
-                if "flush_err_io" in inf["decisions_before_start"] and "flush_err_w" not in inf["decisions_before_start"]:
+            if not okp:
+                _, inf = H.py_monitor(labs, H.COVERED)
+                if "flush_err_io" in inf["decisions_before_start"]:
                     f22_io[0] = True
             return w.sched
         return H.explore(run_case, maxpre, limit=limit)
 
-    r = explore_case(F22_IO_SCENARIO, 2, 2500 if thorough else 500)
+    r = explore_case(F22_IO_SCENARIO, 2, 2500 if thorough else 300)
     samples.append({"scenario": F22_IO_SCENARIO, "policy": "explore<=2 preemptions", "runs": r["runs"],
                     "per_level": r["per_preemption_level"], "f22_io_reproduced": f22_io[0]})
     for sc, gran, maxpre in TINY:
@@ -236,7 +214,7 @@ def run(ctx):
                         "runs": r["runs"], "per_level": r["per_preemption_level"], "truncated": r["truncated"]})
 
     # 2. K-chan + monitor on generated scenarios, attribute granularity
-    n_attr = 3500 if thorough else 700
+    n_attr = 3500 if thorough else 480
     for n in range(n_attr):
         sc = H.gen_race_scenario(rng) if rng.random() < 0.35 else H.gen_scenario(rng)
         for k in sc["msgs"]:
@@ -252,7 +230,7 @@ def run(ctx):
             samples.append({"scenario": sc, "policy": pk, "labels": labs[:14], "verdict": v})
 
     # 3. monitor on generated scenarios, lock granularity (coarser steps, more schedules)
-    n_lock = 7000 if thorough else 1200
+    n_lock = 7000 if thorough else 750
     for n in range(n_lock):
         sc = H.gen_race_scenario(rng) if rng.random() < 0.35 else H.gen_scenario(rng)
         pk = rng.choice(["random", "random", "pct1", "pct2", "pct3"])
@@ -267,7 +245,7 @@ def run(ctx):
     ctx.oblige("K-chan: every real trace (attribute granularity) is a run of the extracted model with the same "
                "abstract state and labels after every step", conf_ok[0] and stats["validated_traces"] > 0,
                "validated %d traces, %d steps" % (stats["validated_traces"], stats["validated_steps"]))
-    ctx.oblige("monitor (covered decisions) accepts every real trace", mon_ok[0])
+    ctx.oblige("monitor (every kind of close decision) accepts every real trace", mon_ok[0])
     ctx.oblige("extracted monitor agrees with the harness monitor on %d real traces" % len(collected_labels),
                bad_ext == 0, "%d disagreements" % bad_ext)
 
@@ -293,9 +271,8 @@ def run(ctx):
         "decision_kinds_observed": decisions,
         "model_choice_kinds_exercised": tokens,
         "message_kinds": msg_kinds,
-        "known_finding_hits": {str(k): v for k, v in kf_seen.items()},
-        "f22_reproduced_on_real_code": f22,
-        "f22_io_variant_reproduced_on_real_code": f22_io[0],
+        "f22_scenario_still_violates": f22,
+        "f22_io_variant_still_violates": f22_io[0],
         "model_explorer": ex,
         "shape_audit_methods": len(H.SIGNATURE),
         "search_wall_s": round(time.time() - t0, 1),
@@ -322,13 +299,7 @@ def replay(data):
         print("scenario=%s verdict=%s conformance=%s %s" % (json.dumps(sc), v, ok, det or ""))
         return 0 if ok else 1
     okp, infop = H.py_monitor(labs, H.COVERED)
-    okf, inff = H.py_monitor(labs, H.COVERED | H.UNCOVERED)
     print("scenario=%s verdict=%s" % (json.dumps(sc), v))
     print("labels=%s" % " ".join(labs))
-    print("monitor(covered decisions)=%s %s ; monitor(all decisions)=%s %s" % (okp, infop or "", okf, inff or ""))
-    expected_kf = data.get("observed", {}).get("decisions_before_start")
-    if not okp:
-        return 1
-    if not okf and expected_kf is not None and not (set(expected_kf) & H.COVERED):
-        return 1
-    return 0
+    print("monitor(all close decisions)=%s %s" % (okp, infop or ""))
+    return 0 if okp else 1
